@@ -59,20 +59,29 @@ Ltac fix_lens :=
   | E : alen ?l = 2 |- _ => apply alen2 in E as (? & ? & ->)
   end.
 
-(* ---- all, any, filter, takewhile ---- *)
+(* ---- all, any, filter, takewhile (fixed code: the predicate is not variadic) ---- *)
 Definition accepted_pred (typs : list aty) : Prop :=
-  exists t v, typs = [ASig (t1 (t)) (t1 (ABasic KBool)) v; ASlice t].
+  exists t, typs = [ASig (t1 (t)) (t1 (ABasic KBool)) false; ASlice t].
 
 Theorem validate_exact_pred typs : add_pred typs = Ok <-> accepted_pred typs.
 Proof.
   unfold accepted_pred; split.
   - unfold add_pred. split_args typs; intros H; try discriminate H.
     destruct b; try discriminate H. destruct a; try discriminate H.
+    destruct variadic; [discriminate H|]. cbn [negb need] in H.
     destruct ps as [|p1 [|p2 ps]]; try discriminate H.
     destruct rs as [|r1 [|r2 rs]]; cbn in H; try discriminate H.
     all: peel H; try discriminate H. reflect_all. eauto.
-  - intros (t & v & ->). unfold add_pred, identical. cbn. rewrite !aty_eqb_refl. reflexivity.
+  - intros (t & ->). unfold add_pred, identical. cbn. rewrite !aty_eqb_refl. reflexivity.
 Qed.
+
+(* the code before C09-fix-variadic-function-arguments accepted a variadic predicate whose
+   parameter type (the slice type) is the element type of the list *)
+Example pred_prefix_accepts_variadic :
+  add_pred_prefix [ASig (t1 (ASlice (ABasic KInt))) (t1 (ABasic KBool)) true; ASlice (ASlice (ABasic KInt))] = Ok /\
+  add_pred [ASig (t1 (ASlice (ABasic KInt))) (t1 (ABasic KBool)) true; ASlice (ASlice (ABasic KInt))] = Err /\
+  add_pred [ASig (t1 (ASlice (ABasic KInt))) (t1 (ABasic KBool)) false; ASlice (ASlice (ABasic KInt))] = Ok.
+Proof. vm_compute. repeat split. Qed.
 
 (* ---- clone, keys, set, sort, unique ---- *)
 Theorem validate_exact_one typs : add_one typs = Ok <-> exists t, typs = [t].
@@ -213,38 +222,41 @@ Qed.
 (* ---- traverse ---- *)
 Theorem validate_exact_traverse typs :
   add_traverse typs = Ok <->
-  exists t r e v, typs = [ASig (t1 (t)) (t2 (r) (e)) v; ASlice t] /\ is_error e = true.
+  exists t r e, typs = [ASig (t1 (t)) (t2 (r) (e)) false; ASlice t] /\ is_error e = true.
 Proof.
   split.
   - unfold add_traverse. split_args typs; intros H; try discriminate H.
     destruct b; try discriminate H. destruct a; try discriminate H.
+    destruct variadic; [discriminate H|]. cbn [negb need] in H.
     destruct ps as [|p1 [|p2 ps]]; try discriminate H.
     destruct rs as [|r1 [|r2 [|r3 rs]]]; cbn in H; try discriminate H.
-    all: peel H; try discriminate H. reflect_all. do 4 eexists; split; [reflexivity|assumption].
-  - intros (t & r & e & v & -> & E). unfold add_traverse, identical; cbn.
+    all: peel H; try discriminate H. reflect_all. do 3 eexists; split; [reflexivity|assumption].
+  - intros (t & r & e & -> & E). unfold add_traverse, identical; cbn.
     rewrite aty_eqb_refl. cbn. rewrite E. reflexivity.
 Qed.
 
 (* ---- pipeline ---- *)
 Theorem validate_exact_pipeline typs :
   add_pipeline typs = Ok <->
-  exists a b c d1 v1 v2,
-    typs = [ASig (t1 (a)) (t1 (AChan d1 b)) v1; ASig (t1 (b)) (t1 (AChan DRecv c)) v2] /\ d1 <> DSend.
+  exists a b c d1,
+    typs = [ASig (t1 (a)) (t1 (AChan d1 b)) false; ASig (t1 (b)) (t1 (AChan DRecv c)) false] /\ d1 <> DSend.
 Proof.
   split.
   - unfold add_pipeline, funcInChanOut. split_args typs; intros H; try discriminate H.
     destruct a; try discriminate H.
+    destruct variadic; [discriminate H|].
     destruct ps as [|p1 [|p2 ps]]; cbn in H; try discriminate H.
     destruct rs as [|r1 [|r2 rs]]; cbn in H; try discriminate H.
     destruct r1; try discriminate H.
     destruct d; cbn in H; try discriminate H.
     all: destruct b; try discriminate H.
+    all: destruct variadic; [discriminate H|].
     all: destruct ps as [|q1 [|q2 ps]]; cbn in H; try discriminate H.
     all: destruct rs as [|s1 [|s2 rs]]; cbn in H; try discriminate H.
     all: destruct s1; try discriminate H.
     all: destruct d; cbn in H; try discriminate H.
-    all: inv_ok H; reflect_all; do 6 eexists; (split; [reflexivity|discriminate]).
-  - intros (a & b & c & d1 & v1 & v2 & -> & N). unfold add_pipeline, identical; cbn.
+    all: inv_ok H; reflect_all; do 4 eexists; (split; [reflexivity|discriminate]).
+  - intros (a & b & c & d1 & -> & N). unfold add_pipeline, identical; cbn.
     destruct d1; try congruence; cbn; rewrite aty_eqb_refl; reflexivity.
 Qed.
 
@@ -274,58 +286,67 @@ Proof.
 Qed.
 
 (* ---- fmap (with the fixed channel form) ---- *)
-Lemma fmap_fn1_exact f elem : fmap_fn1 f elem = Ok <-> exists r v, f = ASig (t1 (elem)) (t1 (r)) v.
+Lemma fmap_fn1_exact f elem : fmap_fn1 f elem = Ok <-> exists r, f = ASig (t1 (elem)) (t1 (r)) false.
 Proof.
   split.
   - unfold fmap_fn1. intros H. destruct f; try discriminate H.
+    destruct variadic; [discriminate H|]. cbn [negb need] in H.
     destruct ps as [|p1 [|p2 ps]]; try discriminate H.
     destruct rs as [|r1 [|r2 rs]]; cbn in H; try discriminate H.
     all: peel H; try discriminate H. reflect_all. eauto.
-  - intros (r & v & ->). unfold fmap_fn1, identical. cbn. rewrite aty_eqb_refl. reflexivity.
+  - intros (r & ->). unfold fmap_fn1, identical. cbn. rewrite aty_eqb_refl. reflexivity.
 Qed.
 
 Lemma fmap_errorInOut_exact f g :
   fmap_errorInOut f g = Ok <->
-  exists e rs v er v', f = ASig (t1 (e)) rs v /\ g = ASig TNil (t2 (e) (er)) v' /\ is_error er = true.
+  exists e rs er v', f = ASig (t1 (e)) rs false /\ g = ASig TNil (t2 (e) (er)) v' /\ is_error er = true.
 Proof.
   split.
   - unfold fmap_errorInOut. intros H. destruct g; try discriminate H.
     destruct ps as [|q1 qs]; try discriminate H.
     destruct rs as [|r1 [|r2 [|r3 rs]]]; cbn in H; try discriminate H.
     destruct (is_error r2) eqn:E; cbn in H; try discriminate H.
-    destruct f; try discriminate H.
-    destruct ps as [|p1 [|p2 ps]]; cbn in H; try discriminate H.
-    peel H; try discriminate H. reflect_all. do 5 eexists; repeat split; eauto.
-  - intros (e & rs & v & er & v' & -> & -> & E). unfold fmap_errorInOut, identical. cbn.
+    destruct f as [| | | | | | |fps frs fv| | | |]; try discriminate H.
+    destruct fv; [discriminate H|]. cbn [negb need] in H.
+    destruct fps as [|p1 [|p2 ps]]; cbn in H; try discriminate H.
+    peel H; try discriminate H. reflect_all. do 4 eexists; repeat split; eauto.
+  - intros (e & rs & er & v' & -> & -> & E). unfold fmap_errorInOut, identical. cbn.
     rewrite E. cbn. rewrite aty_eqb_refl. reflexivity.
 Qed.
 
 Theorem validate_exact_fmap typs :
   add_fmap typs = Ok <->
-  (exists e r v, typs = [ASig (t1 (e)) (t1 (r)) v; ASlice e]) \/
-  (exists k r v, typs = [ASig (t1 (ABasic KInt32)) (t1 (r)) v; ABasic k] /\ default_kind k = KString) \/
-  (exists e rs v er v', typs = [ASig (t1 (e)) rs v; ASig TNil (t2 (e) (er)) v'] /\ is_error er = true) \/
-  (exists e r v d, typs = [ASig (t1 (e)) (t1 (r)) v; AChan d e] /\ d <> DSend).
+  (exists e r, typs = [ASig (t1 (e)) (t1 (r)) false; ASlice e]) \/
+  (exists k r, typs = [ASig (t1 (ABasic KInt32)) (t1 (r)) false; ABasic k] /\ default_kind k = KString) \/
+  (exists e rs er v', typs = [ASig (t1 (e)) rs false; ASig TNil (t2 (e) (er)) v'] /\ is_error er = true) \/
+  (exists e r d, typs = [ASig (t1 (e)) (t1 (r)) false; AChan d e] /\ d <> DSend).
 Proof.
   split.
   - unfold add_fmap. split_args typs; intros H; try discriminate H.
     destruct b; try discriminate H.
     + destruct (bkind_eqb (default_kind k) KString) eqn:K; cbn [need] in H; [|discriminate H].
-      apply bkind_eqb_eq in K. apply fmap_fn1_exact in H as (r & v & ->).
-      right; left. do 3 eexists; split; eauto.
-    + apply fmap_fn1_exact in H as (r & v & ->). left. eauto.
-    + apply fmap_errorInOut_exact in H as (e & rs' & v & er & v' & -> & G & E).
-      injection G as -> -> ->. right; right; left. do 5 eexists; split; eauto.
+      apply bkind_eqb_eq in K. apply fmap_fn1_exact in H as (r & ->).
+      right; left. do 2 eexists; split; eauto.
+    + apply fmap_fn1_exact in H as (r & ->). left. eauto.
+    + apply fmap_errorInOut_exact in H as (e & rs' & er & v' & -> & G & E).
+      injection G as -> -> ->. right; right; left. do 4 eexists; split; eauto.
     + destruct d; cbn [is_send negb need] in H; try discriminate H;
-        apply fmap_fn1_exact in H as (r & v & ->); right; right; right;
-        do 4 eexists; (split; [reflexivity|discriminate]).
-  - intros [(e & r & v & ->)|[(k & r & v & -> & K)|[(e & rs & v & er & v' & -> & E)|(e & r & v & d & -> & N)]]];
+        apply fmap_fn1_exact in H as (r & ->); right; right; right;
+        do 3 eexists; (split; [reflexivity|discriminate]).
+  - intros [(e & r & ->)|[(k & r & -> & K)|[(e & rs & er & v' & -> & E)|(e & r & d & -> & N)]]];
       unfold add_fmap; cbn [length Nat.eqb need idx nth_error].
     + apply fmap_fn1_exact; eauto.
     + rewrite K. cbn [bkind_eqb need]. apply fmap_fn1_exact; eauto.
-    + apply fmap_errorInOut_exact. do 5 eexists; repeat split; eauto.
+    + apply fmap_errorInOut_exact. do 4 eexists; repeat split; eauto.
     + destruct d; try congruence; cbn [is_send negb need]; apply fmap_fn1_exact; eauto.
 Qed.
+
+(* the code before C09-fix-variadic-function-arguments: deriveFmap(func(xs ...int) string, [][]int) *)
+Example fmap_prefix_accepts_variadic :
+  fmap_fn1_prefix (ASig (t1 (ASlice (ABasic KInt))) (t1 (ABasic KString)) true) (ASlice (ABasic KInt)) = Ok /\
+  add_fmap [ASig (t1 (ASlice (ABasic KInt))) (t1 (ABasic KString)) true; ASlice (ASlice (ABasic KInt))] = Err /\
+  add_fmap [ASig (t1 (ASlice (ABasic KInt))) (t1 (ABasic KString)) false; ASlice (ASlice (ABasic KInt))] = Ok.
+Proof. vm_compute. repeat split. Qed.
 
 (* ---- join (with the fixed channel forms) ---- *)
 Lemma anth_last rs : alen rs <> 0 -> anth rs (alen rs - 1) = alast rs.
@@ -451,3 +472,161 @@ Proof.
       destruct e; try (rewrite G; cbn [need]; exact J).
       exfalso. eapply C. reflexivity.
 Qed.
+
+(* ---- apply (fixed code): a non-variadic function with a last parameter the second argument is
+        assignable to ---- *)
+Theorem validate_exact_apply typs :
+  add_apply typs = Ok <->
+  exists ps rs b last, typs = [ASig ps rs false; b] /\ alast ps = Some last /\ assignable b last = true.
+Proof.
+  split.
+  - unfold add_apply. split_args typs; intros H; try discriminate H.
+    destruct a; try discriminate H.
+    destruct variadic; cbn [negb need] in H; [discriminate H|].
+    destruct (1 <=? alen ps) eqn:L; cbn [need] in H; [|discriminate H].
+    apply Nat.leb_le in L. unfold at_ in H. rewrite anth_last in H by lia.
+    destruct (alast ps) as [last|] eqn:A; [|discriminate H].
+    destruct (assignable b last) eqn:S; cbn [need] in H; [|discriminate H].
+    do 4 eexists; repeat split; eauto.
+  - intros (ps & rs & b & last & -> & A & S). unfold add_apply; cbn.
+    destruct ps as [|p ps']; [discriminate A|].
+    cbn [alen Nat.leb need]. unfold at_. rewrite anth_last by (cbn; lia). rewrite A, S. reflexivity.
+Qed.
+
+(* ---- do: two or more func() (T, error) ---- *)
+Definition do_fn (t : aty) : Prop := exists r e v, t = ASig TNil (t2 (r) (e)) v /\ is_error e = true.
+
+Lemma do_errorOut_exact t : do_errorOut t = Ok <-> do_fn t.
+Proof.
+  unfold do_fn. split.
+  - unfold do_errorOut. intros H. destruct t; try discriminate H.
+    destruct ps; cbn [alen Nat.eqb need] in H; [|discriminate H].
+    destruct rs as [|r1 [|r2 [|r3 rs]]]; cbn in H; try discriminate H.
+    destruct (is_error r2) eqn:E; [|discriminate H]. do 3 eexists; split; eauto.
+  - intros (r & e & v & -> & E). cbn. rewrite E. reflexivity.
+Qed.
+
+Lemma do_all_exact typs : do_all typs = Ok <-> Forall do_fn typs.
+Proof.
+  induction typs as [|t r IH]; cbn [do_all].
+  - split; [constructor|reflexivity].
+  - split.
+    + intros H. destruct (do_errorOut t) eqn:D; cbn in H; try discriminate H.
+      constructor; [apply do_errorOut_exact; exact D|apply IH; exact H].
+    + intros F. inversion F as [|? ? F1 F2]; subst.
+      apply do_errorOut_exact in F1. rewrite F1. cbn. apply IH; exact F2.
+Qed.
+
+Theorem validate_exact_do typs : add_do typs = Ok <-> 2 <= length typs /\ Forall do_fn typs.
+Proof.
+  unfold add_do. destruct (2 <=? length typs) eqn:L; cbn [need].
+  - apply Nat.leb_le in L. rewrite do_all_exact. tauto.
+  - apply Nat.leb_gt in L. split; [discriminate|intros [A _]; lia].
+Qed.
+
+(* ---- compose (fixed code): two or more non-variadic functions, each returning an error last,
+        the other results of each assignable to the parameters of the next ---- *)
+Definition compose_fn (t : aty) (ps rs : atys) : Prop :=
+  exists e, t = ASig ps rs false /\ alast rs = Some e /\ is_error e = true.
+
+(* the chain condition, stated on the list of (parameters, results) *)
+Fixpoint compose_links (l : list (atys * atys)) : Prop :=
+  match l with
+  | (_, rs) :: (((ps', _) :: _) as r) => assignable_all (ainit rs) ps' = true /\ compose_links r
+  | _ => True
+  end.
+
+Definition accepted_compose (typs : list aty) : Prop :=
+  2 <= length typs /\
+  exists l, Forall2 (fun t pr => compose_fn t (fst pr) (snd pr)) typs l /\ compose_links l.
+
+Lemma assignable_all_len rs ps : assignable_all rs ps = true -> alen rs = alen ps.
+Proof.
+  revert ps. induction rs as [|r rs IH]; intros [|p ps] H; cbn in *; try discriminate; try reflexivity.
+  apply andb_prop in H as [_ H]. f_equal. apply IH; exact H.
+Qed.
+
+(* compose_sigs collects (params, results without the error) of functions that satisfy compose_fn *)
+Lemma compose_sigs_exact typs : forall l,
+  compose_sigs typs = inl (Some l) <->
+  exists l0, Forall2 (fun t pr => compose_fn t (fst pr) (snd pr)) typs l0 /\
+             l = map (fun pr => (fst pr, ainit (snd pr))) l0.
+Proof.
+  induction typs as [|t r IH]; intros l; cbn [compose_sigs].
+  - split.
+    + intros H. injection H as <-. exists []. split; [constructor|reflexivity].
+    + intros (l0 & F & ->). inversion F; subst. reflexivity.
+  - split.
+    + intros H. destruct t; try discriminate H.
+      destruct variadic; [discriminate H|].
+      destruct (alen rs =? 0) eqn:Z; [discriminate H|]. apply Nat.eqb_neq in Z.
+      rewrite (anth_last rs Z) in H.
+      destruct (alast rs) as [e|] eqn:A; [|discriminate H].
+      destruct (is_error e) eqn:E; [|discriminate H].
+      destruct (compose_sigs r) as [[l'|]|g] eqn:C; try discriminate H.
+      injection H as <-.
+      destruct (proj1 (IH l') eq_refl) as (l0 & F & ->).
+      exists ((ps, rs) :: l0). split; [|reflexivity].
+      constructor; [exists e; cbn; auto|exact F].
+    + intros (l0 & F & ->). inversion F as [|? pr ? l0' (e & -> & A & E) F']; subst.
+      destruct pr as [ps rs]; cbn [fst snd] in *.
+      assert (Z : alen rs <> 0) by (destruct rs; [discriminate A|cbn; lia]).
+      destruct (alen rs =? 0) eqn:Z'; [apply Nat.eqb_eq in Z'; contradiction|].
+      rewrite (anth_last rs Z), A, E.
+      rewrite (proj2 (IH (map (fun pr => (fst pr, ainit (snd pr))) l0'))) by eauto.
+      reflexivity.
+Qed.
+
+Lemma compose_sigs_not_ok typs : compose_sigs typs <> inr Ok.
+Proof.
+  induction typs as [|t r IH]; cbn [compose_sigs]; [discriminate|].
+  destruct t; try discriminate. destruct variadic; [discriminate|].
+  destruct (alen rs =? 0); [discriminate|].
+  destruct (anth rs (alen rs - 1)); [|discriminate].
+  destruct (is_error a); [|discriminate].
+  destruct (compose_sigs r) as [[l|]|g]; try discriminate. exact IH.
+Qed.
+
+Lemma compose_chain_exact l0 : forall ps rs,
+  compose_chain (ainit rs) (map (fun pr => (fst pr, ainit (snd pr))) l0) = Ok <->
+  compose_links ((ps, rs) :: l0).
+Proof.
+  induction l0 as [|[ps' rs'] l0 IH]; intros ps rs; cbn [map compose_chain fst snd].
+  - cbn. tauto.
+  - cbn [compose_links]. rewrite <- (IH ps' rs'). split.
+    + intros H. destruct (alen (ainit rs) =? alen ps'); cbn [need] in H; [|discriminate H].
+      destruct (assignable_all (ainit rs) ps') eqn:S; cbn [need] in H; [|discriminate H]. tauto.
+    + intros [S H]. rewrite (assignable_all_len _ _ S), Nat.eqb_refl, S. cbn [need]. exact H.
+Qed.
+
+Theorem validate_exact_compose typs : add_compose typs = Ok <-> accepted_compose typs.
+Proof.
+  unfold accepted_compose, add_compose, compose_errorType.
+  destruct (2 <=? length typs) eqn:L; cbn [need].
+  2:{ apply Nat.leb_gt in L. split; [discriminate|intros [A _]; lia]. }
+  apply Nat.leb_le in L.
+  destruct typs as [|t0 r]; [cbn in L; lia|]. cbn [idx nth_error].
+  split.
+  - intros H. split; [exact L|].
+    destruct t0; try discriminate H.
+    destruct (compose_sigs (ASig ps rs variadic :: r)) as [[l|]|g] eqn:C; try discriminate H.
+    + apply compose_sigs_exact in C as (l0 & F & ->).
+      exists l0. split; [exact F|].
+      destruct l0 as [|[ps0 rs0] l0]; [inversion F|]. cbn [map fst snd] in H.
+      apply (compose_chain_exact l0 ps0 rs0). exact H.
+    + subst g. exfalso. exact (compose_sigs_not_ok _ C).
+  - intros (_ & l0 & F & K).
+    assert (C : compose_sigs (t0 :: r) = inl (Some (map (fun pr => (fst pr, ainit (snd pr))) l0)))
+      by (apply compose_sigs_exact; eauto).
+    inversion F as [|? [ps0 rs0] ? l0' (e & -> & A & E) F']; subst.
+    rewrite C. cbn [map fst snd]. apply (compose_chain_exact l0' ps0 rs0). exact K.
+Qed.
+
+Example compose_accepts :
+  add_compose [ASig (t1 (ABasic KInt)) (t2 (ABasic KString) (AErr)) false;
+               ASig (t1 (ABasic KString)) (t2 (ABasic KFloat64) (AErr)) false] = Ok /\
+  add_compose [ASig (t1 (ABasic KInt)) (t2 (ABasic KString) (AErr)) false;
+               ASig (t1 (ABasic KInt)) (t2 (ABasic KFloat64) (AErr)) false] = Err /\
+  add_compose [ASig (t1 (ASlice (ABasic KInt))) (t2 (ABasic KString) (AErr)) true;
+               ASig (t1 (ABasic KString)) (t2 (ABasic KFloat64) (AErr)) false] = Err.
+Proof. vm_compute. repeat split. Qed.
